@@ -1,6 +1,6 @@
 (* C05 — non-vacuity examples for the hypotheses of Props.v *)
 From Coq Require Import ZArith List Lia.
-From FV Require Import Lib.RustInt C05.Model C05.Proofs.
+From FV Require Import Lib.RustInt C05.Model C05.Proofs C05.Sort.
 Import ListNotations.
 Open Scope Z_scope.
 
@@ -53,3 +53,17 @@ Proof.
   split; [repeat constructor; cbn; intuition lia|]. split; [reflexivity|].
   intros id o l [<-|[<-|[]]] Ho Hl; cbn in Ho; inversion Ho; subst; cbn in Hl; intuition; subst; cbn; lia.
 Qed.
+
+(* the decidable hypotheses hold on the example layout (and fail when the order is reversed) *)
+Example c05_layout_okb_example : layout_okb ex_objs [2; 1] = true /\ layout_okb ex_objs [1; 2] = false.
+Proof. split; reflexivity. Qed.
+
+(* graph_hyps holds of the object map the store builds for the example description, and the end-to-end
+   theorem's premises are met (pack_objects = Packed) *)
+Example c05_graph_hyps_example :
+  match add_table 5 ex_dag 0%nat (mkStore [] (id_stream 10 1 20)) with
+  | Some (st, root) => graph_hypsb (objs_of_store (st_objs st)) root = true /\
+                       match packed_graph (objs_of_store (st_objs st)) root with Some _ => True | None => False end
+  | None => False
+  end.
+Proof. vm_compute. split; [reflexivity|exact I]. Qed.
